@@ -143,7 +143,16 @@ var _ = strings.ToLower
 //@ func (mbox *MailboxView) staticNumSet(numSet imap.NumSet) (result imap.NumSet)
 //@   props C09:callsite C08:callsite C04:post C05:post C06:post
 //@   requires mbox != nil
-//@   callsite staticNumRange(start, stop *uint32, max uint32) requires start != nil && stop != nil && start != stop && (max == uint32(len(mbox.l)) || max == uint32(mbox.uidNext)-1)
+//@   callsite staticNumRange(start, stop *uint32, max uint32) requires start != nil && stop != nil && start != stop && max == uint32(len(mbox.l))
+
+// "*" in a UID set is the highest UID in use (the UID of the last message: the
+// list is in ascending UID order), which differs from UIDNEXT-1 once the last
+// messages have been expunged; only for an empty mailbox is UIDNEXT-1 used.
+//
+//@ func (mbox *Mailbox) staticUIDSetLocked(uidSet imap.UIDSet) (result imap.UIDSet)
+//@   props C09:callsite C08:callsite C04:post C05:post C06:post
+//@   requires mbox != nil
+//@   callsite staticNumRange(start, stop *uint32, max uint32) requires start != nil && stop != nil && start != stop && ((len(mbox.l) > 0 && max == uint32(mbox.l[len(mbox.l)-1].uid)) || (len(mbox.l) == 0 && max == uint32(mbox.uidNext)-1))
 
 // ---------------------------------------------------------------------------
 // Removing messages (EXPUNGE, MOVE): exactly the given messages leave the list,
@@ -182,10 +191,12 @@ func inExpunged(expunged map[*message]struct{}, msg *message) bool {
 //@   loop 1 decreases len(filtered)/2 - i
 
 // EXPUNGE removes exactly the messages that carry \\Deleted (restricted to the
-// given UIDs for UID EXPUNGE) through expungeLocked, whose preconditions hold.
+// given UIDs for UID EXPUNGE, in which "*" is resolved first) through
+// expungeLocked, whose preconditions hold.
 //
 //@ func (mbox *Mailbox) Expunge(w *imapserver.ExpungeWriter, uids *imap.UIDSet) (err error)
-//@   props C08:pre@call C09:pre@call
+//@   props C08:pre@call C09:pre@call,post
+//@   ensures[C09] uids != nil ==> __called("Mailbox.staticUIDSetLocked")
 //@   requires mbox != nil && mbox.tracker != nil && len(mbox.l) < 4294967296
 //@   requires imapserver.TrackerCount(mbox.tracker) == uint32(len(mbox.l))
 
